@@ -241,10 +241,15 @@ PROPS = {
                       ".gz twin holding the same data (compress_lossless, rotation_lossless); the file being written is never removed or compressed (current_spared_every_step; "
                       "witness that the k=0 bump for direct namings is necessary). Differential check with synchronous cleanup after every op incl. restarts and real gzip round trip, "
                       "and with the cleanup thread under four schedules: lock-step (the model's schedule, full comparison), free-running, and two adversarial ones that make the "
-                      "thread work off its backlog exactly inside the next rotation (stream and partition compared, tail/bounds oracles after shutdown).",
+                      "thread work off its backlog exactly inside the next rotation (stream and partition compared, tail/bounds oracles after shutdown). "
+                      "The cleanup thread itself: for the abstract protocol (Model/Bg: rotate / take a message and list the directory / one file operation of the plan derived "
+                      "from THAT listing) and EVERY interleaving, the directory after the thread has drained its queue equals the synchronous result (bg_final_eq_sync), and at "
+                      "every moment the k+m newest rotated files exist and the k newest are uncompressed (bg_newest_untouched); under the adversarial schedules the thread's "
+                      "steps are observed one by one and replayed on that model (file operations in order, files left).",
         "level_note": "Proved for synchronous cleanup in a single run from an empty directory; the background cleanup thread is covered by the same final-state argument only "
-                      "informally (confluence: the last pass sees the whole directory; stale passes are conservative) and by the scheduled runs — 'all interleavings' of the thread "
-                      "are sampled (lock-step, free-running, two adversarial windows), not proved; restarts + cleanup: differential check. gz = tagged identity in the model, "
+                      "by the confluence theorem of the abstract protocol Bg (all interleavings, kernel-checked; it abstracts rotated files to their rank and assumes what the repaired "
+                      "code guarantees: a rotated file is immutable once it has its final name, names are fresh) and by the scheduled runs (lock-step, free-running, two "
+                      "adversarial windows) that tie it to the code; the refinement Flw-directory -> Bg-ranks is validated by those runs, not proved; restarts + cleanup: differential check. gz = tagged identity in the model, "
                       "byte-exactness checked by decompression. One genuine defect found by these schedules and repaired (fix dfc7273: buffered tail of the rotated file lost when "
                       "the cleanup thread overtakes a rotation). Four known findings (index >= 100000, suffix sorting after 'restart', suffix-less files never compressed, "
                       "day-first custom format).",
